@@ -401,6 +401,16 @@ def suite_evaluate(rng, tier, shard, nshards):
             ps[9] = rng.choice([b for b in BINS if b in (41, 4, 10)])
         if rng.random() < 0.15:
             ref, est, ps[3], tag = goto_edge(rng)
+        # evaluate() validates the UNTRIMMED arrays (fix 1b867d1): beats that are out of order only inside the part
+        # that trimming removes must be rejected, not trimmed away
+        u = rng.random()
+        if u < 0.12:
+            early = [Fr(rng.randint(2 * LAT, 4 * LAT), LAT), Fr(rng.randint(0, 2 * LAT) - 1, LAT)]
+            if rng.random() < 0.5:
+                ref = early + ref
+            else:
+                est = early + est
+            tag = "unsorted before the trim time"
         tr = [v for v in ref if v >= ps[0]]
         te = [v for v in est if v >= ps[0]]
         if not _is_dyadic(ps[8]) and period_tie_possible(tr, te, ps[8]):
